@@ -13,6 +13,8 @@ pub trait SideFunctionality {
     fn new() -> Self;
     /// Insert an order
     fn insert_order(&mut self, key: OrderKey, idx: OrderId, vol: Vol);
+    /// Queue an order behind every order already at its price
+    fn queue_order(&mut self, key: OrderKey, idx: OrderId, vol: Vol) -> OrderKey;
     /// Remove an order
     fn remove_order(&mut self, key: OrderKey, vol: Vol);
     /// Remove volume from a price level
@@ -63,6 +65,33 @@ impl OrderBookSide {
             }
         };
         self.vol += vol;
+    }
+
+    /// Queue an order behind every order already at its price
+    ///
+    /// Keys must be unique, so if the time-stamp of the key
+    /// is not later than that of the last order queued at the
+    /// same price, the order is keyed just after that order.
+    /// Returns the key the order was inserted with.
+    ///
+    /// # Arguments
+    ///
+    /// - `key` - Key of the order
+    /// - `idx` - Id of the order
+    /// - `vol` - Volume of the order
+    ///
+    fn queue_order(&mut self, key: OrderKey, idx: OrderId, vol: Vol) -> OrderKey {
+        let last = self
+            .orders
+            .range((key.1, Nanos::MIN)..=(key.1, Nanos::MAX))
+            .next_back()
+            .map(|(k, _)| k.1);
+        let key = match last {
+            Some(t) if t >= key.2 => (key.0, key.1, t + 1),
+            _ => key,
+        };
+        self.insert_order(key, idx, vol);
+        key
     }
 
     /// Remove an order and update volume tracking
@@ -168,6 +197,13 @@ impl SideFunctionality for BidSide {
         self.0.insert_order(key, idx, vol)
     }
 
+    /// Queue an order behind every order already at its price
+    ///
+    /// Returns the key the order was inserted with.
+    fn queue_order(&mut self, key: OrderKey, idx: OrderId, vol: Vol) -> OrderKey {
+        self.0.queue_order(key, idx, vol)
+    }
+
     /// Remove an order and update volume tracking
     ///
     /// # Arguments
@@ -236,6 +272,13 @@ impl SideFunctionality for AskSide {
     /// - `vol` - Volume of the ord
     fn insert_order(&mut self, key: OrderKey, idx: OrderId, vol: Vol) {
         self.0.insert_order(key, idx, vol)
+    }
+
+    /// Queue an order behind every order already at its price
+    ///
+    /// Returns the key the order was inserted with.
+    fn queue_order(&mut self, key: OrderKey, idx: OrderId, vol: Vol) -> OrderKey {
+        self.0.queue_order(key, idx, vol)
     }
 
     /// Remove an order and update volume tracking
